@@ -41,6 +41,8 @@ BandViol(fs, b) ==
   \cup (IF fs.bands[b].tail = "ok" /\ fs.bands[b].tc # k
         THEN {<<"tail-hunk-count-wrong", b, fs.bands[b].tc>>} ELSE {})
   \cup (IF fs.bands[b].tail = "ok" /\ fs.bands[b].head # "ok" THEN {<<"tail-without-head", b, -1>>} ELSE {})
+  \* the head is written before any hunk
+  \cup (IF R # {} /\ fs.bands[b].head # "ok" THEN {<<"hunks-without-head", b, -1>>} ELSE {})
 
 BlockViol(fs, h) ==
     LET bl == fs.blocks[h] IN
